@@ -14,6 +14,7 @@ func Generate(profile string, seed uint64, tier string) (*Scenario, error) {
 	case "C01":
 		sc.Property = "C01"
 		c := g.baseStoreCfg(tier)
+		c.PInvalid = g.PickFloat([]float64{0, 0.1, 0.25})
 		if len(c.Datasets) < 2 && g.P(0.7) {
 			c.Datasets = []string{"dsA", "dsB"}
 		}
@@ -26,6 +27,7 @@ func Generate(profile string, seed uint64, tier string) (*Scenario, error) {
 			c.Datasets = c.Datasets[:1]
 		}
 		c.PRepeat = 0.35
+		c.PInvalid = g.PickFloat([]float64{0, 0, 0.15})
 		c.Readers = g.Range(1, 3)
 		c.PRead = 0.35
 		sc.Datasets = c.Datasets
@@ -48,6 +50,7 @@ func Generate(profile string, seed uint64, tier string) (*Scenario, error) {
 		c := g.baseStoreCfg(tier)
 		c.PRefHeavy = 0.9
 		c.PNested = 0
+		c.PInvalid = g.PickFloat([]float64{0, 0, 0.15})
 		if c.NOps > 15 {
 			sc.Knobs["checkEvery"] = 3
 		}
